@@ -7,6 +7,8 @@ import AlgopyVerif.Model.Heap
 import AlgopyVerif.Model.Interp
 import AlgopyVerif.Model.Convert
 import AlgopyVerif.Model.NthDeriv
+import AlgopyVerif.Model.Pullback
+import AlgopyVerif.Model.Tracer
 import Lean.Data.Json
 /-!
 # Request dispatch of the model driver (JSON codec + operation table)
@@ -156,6 +158,71 @@ def handleK (j : Json) : Except String Json := do
       | "div" => pure divS
       | _ => throw s!"bad-fn {fn}"
     optArr (zipS2 f x y)
+  | "pb1" =>
+    -- series-level pullback of a unary operation, starting from xbar = 0
+    let fn ← j.getObjValAs? String "fn"
+    let ybar : NdArray K ← getArr j "ybar"
+    let x : NdArray K ← getArr j "x"
+    let y : NdArray K ← getArr j "y"
+    let leaves : List (NdArray K) ← getArrs j "leaves"
+    let pr : List K ← getNums j "params"
+    let n := (j.getObjValAs? Nat "n").toOption.getD 0
+    let D := utD x
+    let P := utP x
+    let shape := utShape x
+    let zero : List K := List.replicate D 0
+    let res ← (pure (ofSeries D P shape fun p idx =>
+      let yb := seriesAt ybar p idx
+      let xs := seriesAt x p idx
+      let ys := seriesAt y p idx
+      let l (i : Nat) : K := (leaves.getD i ⟨[], #[]⟩).get (p :: idx)
+      match fn with
+      | "exp" => pbExp yb ys zero
+      | "log" => pbLog yb xs zero
+      | "sqrt" => pbSqrt yb ys zero
+      | "square" => pbSquare yb xs zero
+      | "reciprocal" => pbReciprocal yb xs zero
+      | "negative" => pbNegative yb zero
+      | "neg" => pbNeg yb zero
+      | "sign" => pbSign yb zero
+      | "absolute" => pbAbsolute (l 0) yb zero
+      | "pownat" => pbPowNat n yb xs zero
+      | "powreal" => pbPowReal (pr.getD 0 0) yb xs ys zero
+      | "sin" => pbSin (l 0) (l 1) yb xs zero
+      | "cos" => pbCos (l 0) (l 1) yb xs zero
+      | "tan" => pbTan (l 0) (l 1) yb xs zero
+      | "expm1" => pbExpm1 (l 0) yb xs zero
+      | "log1p" => pbLog1p yb xs zero
+      | "logit" => pbLogit yb xs zero
+      | "expit" => pbExpit (l 0) yb xs zero
+      | "erf" => pbErf (pr.getD 0 0) (l 0) yb xs zero
+      | "erfi" => pbErfi (pr.getD 0 0) (l 0) yb xs zero
+      | "dawsn" => pbDawsn (l 0) yb xs zero
+      | _ => []) : Except String (NdArray K))
+    pure (okArrs [res])
+  | "pb2" =>
+    -- series-level pullback of a binary operator on same-shape operands, from zero adjoints
+    let fn ← j.getObjValAs? String "fn"
+    let zbar : NdArray K ← getArr j "zbar"
+    let x : NdArray K ← getArr j "x"
+    let y : NdArray K ← getArr j "y"
+    let z : NdArray K ← getArr j "z"
+    let D := utD x
+    let P := utP x
+    let shape := utShape x
+    let zero : List K := List.replicate D 0
+    let f (p : Nat) (idx : List Nat) : List K × List K :=
+      let zb := seriesAt zbar p idx
+      let xs := seriesAt x p idx
+      let ys := seriesAt y p idx
+      let zs := seriesAt z p idx
+      match fn with
+      | "add" => pbAdd zb zero zero
+      | "sub" => pbSub zb zero zero
+      | "mul" => pbMul zb xs ys zero zero
+      | "div" => pbDiv zb ys zs zero zero
+      | _ => ([], [])
+    pure (okArrs [ofSeries D P shape fun p idx => (f p idx).1, ofSeries D P shape fun p idx => (f p idx).2])
   | "conv" =>
     let what ← j.getObjValAs? String "what"
     match what with
@@ -337,6 +404,28 @@ def handleNth (j : Json) : Except String Json := do
     | _ => throw s!"bad-fn {fn}"
   pure (Json.mkObj [("r", Json.str (showRat r))])
 
+/-- recording state machine: `{"op":"tracer","ops":[{"f":3,"args":[{"n":0},{"c":1}]},"off","on"]}` -/
+def handleTracer (j : Json) : Except String Json := do
+  let ops ← j.getObjValAs? (Array Json) "ops"
+  let ops' ← ops.toList.mapM fun o =>
+    match o with
+    | Json.str "off" => pure Tracer.Op.traceOff
+    | Json.str "on" => pure Tracer.Op.traceOn
+    | o => do
+      let f ← o.getObjValAs? Nat "f"
+      let args ← o.getObjValAs? (Array Json) "args"
+      let as ← args.toList.mapM fun a =>
+        match a.getObjValAs? Nat "n" with
+        | .ok n => pure (Tracer.Arg.node n)
+        | .error _ => do let c ← a.getObjValAs? Nat "c"; pure (Tracer.Arg.const c)
+      pure (Tracer.Op.apply f as)
+  let s := Tracer.run ops' {}
+  let nodes := s.nodes.map fun nd => Json.mkObj [("f", toJson nd.func), ("id", toJson nd.id),
+    ("args", Json.arr (nd.args.map fun a => match a with
+      | .node i => Json.mkObj [("n", toJson i)]
+      | .const c => Json.mkObj [("c", toJson c)]).toArray)]
+  pure (Json.mkObj [("count", toJson s.count), ("tracing", toJson s.tracing), ("nodes", Json.arr nodes.toArray)])
+
 def handlePiv (j : Json) : Except String Json := do
   let piv ← j.getObjValAs? (Array Nat) "piv"
   let N := piv.size
@@ -345,6 +434,7 @@ def handlePiv (j : Json) : Except String Json := do
     ("det", toJson (piv2detF piv.toList))])
 
 def handle (j : Json) : Except String Json := do
+  if (j.getObjValAs? String "op").toOption == some "tracer" then return (← handleTracer j)
   if (j.getObjValAs? String "op").toOption == some "nth" then return (← handleNth j)
   if (j.getObjValAs? String "op").toOption == some "piv" then return (← handlePiv j)
   if (j.getObjValAs? String "op").toOption == some "interp" then return (← handleInterp j)
